@@ -77,6 +77,15 @@ POSITIONS = [
     ("PWithItemAs", "m", "e", ["with $E as h:", "    pass"]),
     ("PForIter", "m", "e", ["for i in $E:", "    pass"]),
     ("PFString", "m", "e", ["v = f\"{$E}\""]),
+    ("PFStringSpecWidth", "m", "e", ["v = f\"{lab:>{$E}}\""]),
+    ("PFStringSpecPrecision", "m", "e", ["v = f\"{val:{w}.{$E}f}\""]),
+    ("PFStringSpecFirst", "m", "e", ["v = f\"{val:{$E}.{p}f}\""]),
+    ("PFStringSpecOfSecond", "m", "e", ["v = f\"{a}{b:{$E}}\""]),
+    ("PFStringConversion", "m", "e", ["v = f\"{$E!r}\""]),
+    ("PFStringDebug", "m", "e", ["v = f\"{$E=}\""]),
+    ("PFStringWithSpec", "m", "e", ["v = f\"{$E:>10}\""]),
+    ("PFStringSecond", "m", "e", ["v = f\"{a} and {$E}\""]),
+    ("PFStringNested", "m", "e", ["v = f\"{f'{$E}'}\""]),
     ("PListElt", "m", "e", ["v = [$E]"]),
     ("PTupleElt", "m", "e", ["v = ($E, 1)"]),
     ("PSetElt", "m", "e", ["v = {$E}"]),
